@@ -195,8 +195,37 @@ fn ops_for(b: &str, n: usize, partials: &[Vec<(usize, bool)>], subsets: &[Vec<us
     }
 }
 
+/// operands with more than 65 536 nodes (pointers and memo keys beyond 16 bits): dense pseudo-random functions
+/// over 20 variables (~107 000 nodes); every operation of the family once or twice on each
+fn big_jobs(rng: &mut Rng64, operands: usize) -> Vec<(&'static str, Vec<String>)> {
+    let n = 20usize;
+    let mut jobs: Vec<(&'static str, Vec<String>)> = vec![];
+    for k in 0..operands {
+        let tt: Vec<bool> = (0..(1usize << n)).map(|_| rng.bool()).collect();
+        let b = fmt_bdd(&bdd_of_tt(n, &tt));
+        let x = if k == 0 { 0 } else { rng.below(n as u64) as usize };
+        let mut y = rng.below(n as u64) as usize;
+        if y == x { y = (x + 7) % n; }
+        let z = (x + y + 1 + rng.below(5) as usize) % n;
+        let (bx, by, bz) = (rng.bool(), rng.bool(), rng.bool());
+        jobs.push(("C06.vsel", vec![b.clone(), x.to_string(), s("1")]));
+        jobs.push(("C06.vsel", vec![b.clone(), (n / 2 + k).to_string(), s("0")]));
+        jobs.push(("C06.select", vec![b.clone(), fmt_lits(&[(y, by), (x, bx), (z, bz), (y, !by)])]));
+        jobs.push(("C06.vres", vec![b.clone(), y.to_string(), s(if by { "1" } else { "0" })]));
+        jobs.push(("C06.restrict", vec![b.clone(), fmt_lits(&[(y, by), (x, !bx), (x, bx)])]));
+        jobs.push(("C06.vpick", vec![b.clone(), x.to_string()]));
+        jobs.push(("C06.vpickr", vec![b.clone(), y.to_string(), s("1")]));
+        jobs.push(("C06.pick", vec![b.clone(), fmt_usizes(&[y, x])]));
+        jobs.push(("C06.pickr", vec![b.clone(), fmt_usizes(&[x, y, x]), fmt_bools(&[rng.bool(), rng.bool()])]));
+    }
+    jobs
+}
+
 pub fn gen(tier: Tier, rng: &mut Rng64, out: &mut Out) {
     let thorough = tier == Tier::Thorough;
+    // the big-operand cases are spread over the stream of small cases so that the runner's shards share them
+    let mut bigs = big_jobs(rng, if thorough { 6 } else { 2 });
+    bigs.reverse();
     // the coin convention of `CoinRng` is re-validated on every run
     for t in ["0", "1", "01", "10", "0011010111", "1111100000"] { run("C06.coin", &[s(t)], out); }
     // --- exhaustive small universes (both tiers): every function over n <= 3 variables x every partial
@@ -208,8 +237,12 @@ pub fn gen(tier: Tier, rng: &mut Rng64, out: &mut Out) {
         for t in 0..count {
             let b = fmt_bdd(&bdd_of_tt(n, &tt_from_index(n, t)));
             ops_for(&b, n, &partials, &subsets, rng, out);
+            if n == 3 && t % (if thorough { 5 } else { 15 }) == 7 {
+                if let Some((key, args)) = bigs.pop() { run(key, &args, out); }
+            }
         }
     }
+    while let Some((key, args)) = bigs.pop() { run(key, &args, out); }
     // --- thorough: a sample of the functions over 4 variables with the same treatment, and the one-variable
     //     restrict / pick on ALL 65 536 functions over 4 variables
     if thorough {
